@@ -1,6 +1,7 @@
 /* dnstc unit, part DNS: the REAL libxcm/tp/dns/xcm_dns_cares.c */
 #include "prelude.h"
 #include "harness/dnstc/_ghost.h"
+#include "harness/dnstc/_ghost_dns.h"
 #include "xcm_dns_cares.c"
 #include "env/base.h"
 #define XV_DNSTC_DNS
@@ -10,6 +11,7 @@
 static inline void xv_dns_havoc(void)
 {
     xv_tmgrs = nondet_int(); xv_xpolls = nondet_int(); xv_queries = nondet_int();
+    __CPROVER_havoc_object(&xv_dg);
     xv_q_failed_seen = nondet_bool(); xv_polled_after_fail = nondet_bool(); xv_polled = nondet_bool();
     xv_poll_fd = nondet_int(); xv_poll_timeout = nondet_int(); xv_poll_events = nondet_short(); xv_poll_rc = nondet_int();
 }
